@@ -150,7 +150,7 @@ impl LangInterpreter for Spanish {
         let sing = lemmatize(word).trim_start_matches("decimo");
         let is_plur = word.ends_with('s');
         match sing {
-            "primer" => MorphologicalMarker::Ordinal(".ᵉʳ"),
+            "primer" | "tercer" => MorphologicalMarker::Ordinal(".ᵉʳ"),
             "primero" | "segundo" | "tercero" | "cuarto" | "quinto" | "sexto" | "séptimo"
             | "octavo" | "ctavo" | "noveno" => {
                 MorphologicalMarker::Ordinal(if is_plur { "ᵒˢ" } else { "º" })
